@@ -232,6 +232,10 @@ def chars0(line):
     return line.segs[0]
 
 
+import builtins as _builtins
+BUILTIN_NAMES = set(dir(_builtins))
+
+
 def parse_independence(tier, seed):
     """syntactic frame lemma: every iteration of parse()'s outer loop depends only on its own line - all locals read
     in the body are (re)assigned in the body before use, and the accumulator `data` is only extended.  Hence
@@ -242,10 +246,51 @@ def parse_independence(tier, seed):
     fi = lookup_qualname(HX + "parse")
     obs = []
 
+    witness = {}
+
+    def additivity_counterexample():
+        """bounded search on the real function for lines l1, l2 with parse(l1 + l2) != parse(l1) + parse(l2)"""
+        if 'w' in witness:
+            return witness['w']
+        import random
+        from pel.hexdump import parse, hexdump
+        rng = random.Random(seed + 3)
+        w = None
+        for _ in range(1500):
+            def lines():
+                out = []
+                for _k in range(rng.randrange(0, 4)):
+                    r = rng.random()
+                    if r < 0.6:
+                        out.extend(hexdump(memoryview(bytes(rng.randrange(256) for _j in range(rng.randrange(1, 40))))))
+                    elif r < 0.8:
+                        out.append(rng.choice(["", "# comment", "Offset  00010203", "zz", "0000000"]))
+                    else:
+                        ln = hexdump(memoryview(bytes(rng.randrange(256) for _j in range(rng.randrange(1, 17)))))[0]
+                        out.append(ln[:rng.randrange(0, len(ln))])
+                return out
+            l1, l2 = lines(), lines()
+            try:
+                a, b, c = bytes(parse(l1 + l2)), bytes(parse(l1)), bytes(parse(l2))
+            except Exception as e:
+                w = dict(l1=l1, l2=l2, error="%s: %s" % (type(e).__name__, e))
+                break
+            if a != b + c:
+                w = dict(l1=l1, l2=l2, whole=a.hex(), parts=(b + c).hex())
+                break
+        witness['w'] = w
+        return w
+
     def ob(name, ok, detail=''):
-        obs.append(dict(name="parse: " + name, status='discharged' if ok else 'failed', solver='syntactic', kind='frame',
-                        detail=detail, secs=0.0, goal=detail,
-                        replay=dict(kind='custom', reproduced=False, native=detail)))
+        # a failed syntactic check only means the body left the recognised idioms: it is a violation when the real function
+        # shows the dependence between lines, and undecided otherwise
+        st, rep = 'discharged', dict(kind='custom', reproduced=False, native=detail)
+        if not ok:
+            w = additivity_counterexample()
+            st = 'failed' if w else 'unknown'
+            rep = dict(kind='custom', reproduced=bool(w), native=w or detail)
+        obs.append(dict(name="parse: " + name, status=st, solver='syntactic', kind='frame',
+                        detail=detail, secs=0.0, goal=detail, replay=rep))
     loops = [n for n in ast.walk(fi.node) if isinstance(n, ast.For)]
     outer = [n for n in fi.node.body if isinstance(n, ast.For)]
     ob("has exactly one top-level loop over the lines", len(outer) == 1, ast.dump(fi.node)[:0])
@@ -267,14 +312,14 @@ def parse_independence(tier, seed):
         for st in stmts:
             if isinstance(st, ast.Assign):
                 r = reads(st.value)
-                for x in r - assigned - shared - set(dir(__builtins__)) - {'bytes', 'range', 'len'}:
+                for x in r - assigned - shared - BUILTIN_NAMES:
                     bad.append(x)
                 for t in st.targets:
                     for n in ast.walk(t):
                         if isinstance(n, ast.Name):
                             assigned.add(n.id)
             elif isinstance(st, ast.For):
-                for x in reads(st.iter) - assigned - shared - {'range', 'len'}:
+                for x in reads(st.iter) - assigned - shared - BUILTIN_NAMES:
                     bad.append(x)
                 inner = set(assigned)
                 for n in ast.walk(st.target):
@@ -282,7 +327,7 @@ def parse_independence(tier, seed):
                         inner.add(n.id)
                 scan(st.body, inner)
             elif isinstance(st, ast.If):
-                for x in reads(st.test) - assigned - shared - {'len'}:
+                for x in reads(st.test) - assigned - shared - BUILTIN_NAMES:
                     bad.append(x)
                 a1, a2 = set(assigned), set(assigned)
                 scan(st.body, a1)
@@ -290,7 +335,7 @@ def parse_independence(tier, seed):
                 assigned |= (a1 & a2)
             elif isinstance(st, (ast.Expr, ast.Break, ast.Continue, ast.Pass)):
                 if isinstance(st, ast.Expr):
-                    for x in reads(st.value) - assigned - shared - {'len'}:
+                    for x in reads(st.value) - assigned - shared - BUILTIN_NAMES:
                         bad.append(x)
             else:
                 bad.append("<%s>" % type(st).__name__)
